@@ -261,6 +261,7 @@ func run(eventHandler EventHandler, listeners []*listener, options *Options, add
 	switch eng.eventHandler.OnBoot(e) {
 	case None, Close:
 	case Shutdown:
+		eng.inShutdown.Store(true) // the handle given to OnBoot must not look like a running engine
 		return nil
 	}
 
